@@ -4,7 +4,7 @@ from ..rules import drivers, once, adapter, step
 META = {
     "title": "The simulation time grid covers the sequence and every evaluation time",
     "technique": "static analysis: provenance-term shape of the grid construction (sorted set, affine grid "
-                 "element, single duration), loop-nesting of the trajectory generator, loop bounds of the drivers",
+                 "element, single duration), loop-nesting of the trajectory generator, loop bounds of the drivers; path enumeration over the statement CFG of the time-merge loop",
     "design_ref": "DESIGN.md §5 C21",
     "explanation": "GRID: _get_target_times returns sorted(<set>) (strictly increasing) of t·duration over a "
                    "relative set that contains {i·dt/duration : i∈range(floor(duration/dt)+1)} (starts at 0, "
